@@ -3,6 +3,7 @@
 # 1. confirms the seeded change in its scratch worktree (73 tests pass with it, demo fails with / passes without)
 # 2. applies it to /repo, runs the given checks (quick), undoes it
 name=$1; wt=$2; shift 2
+export VERIF_EVIDENCE_DIR=/verif/work/evidence-scratch   # never overwrite the committed evidence from a modified tree
 d=/verif/seeded/$name
 mkdir -p $d
 cp $wt/seed.diff $d/patch.diff
